@@ -93,7 +93,9 @@ func newVecSUT(rng *rand.Rand, kind string, metric comet.DistanceKind, vg func(d
 		if err := s.idx.Train(nodes); err != nil {
 			return s, g, fmt.Errorf("train: %w", err)
 		}
-		scribbleOver(nodes)
+		if scribbleAndCheck(s.idx, nodes) {
+			return s, g, fmt.Errorf("train: the trained centroids / codebooks changed when the caller overwrote its training vectors after Train had returned (they alias the training data); kind=%s ntrain=%d", kind, nTrain)
+		}
 		s.params += fmt.Sprintf(" ntrain=%d", nTrain)
 	}
 	return s, g, nil
@@ -329,4 +331,38 @@ func scribbleOver(nodes []comet.VectorNode) {
 			}
 		}
 	}
+}
+
+// trainedStateDigest hashes what training produced (centroids, codebooks), read through the verif accessors.
+func trainedStateDigest(idx comet.VectorIndex) (uint64, bool) {
+	var parts [][]float32
+	switch x := idx.(type) {
+	case *comet.IVFIndex:
+		parts = comet.VerifIVFState(x).Centroids
+	case *comet.PQIndex:
+		parts = comet.VerifPQState(x).Codebooks
+	case *comet.IVFPQIndex:
+		st := comet.VerifIVFPQState(x)
+		parts = append(append(parts, st.Centroids...), st.Codebooks...)
+	default:
+		return 0, false
+	}
+	h := uint64(1469598103934665603)
+	for _, p := range parts {
+		for _, v := range p {
+			h ^= uint64(math.Float32bits(v))
+			h *= 1099511628211
+		}
+		h ^= 0xff
+		h *= 1099511628211
+	}
+	return h, true
+}
+
+// scribbleAndCheck overwrites the caller's training buffers and reports whether the trained state moved with them.
+func scribbleAndCheck(idx comet.VectorIndex, nodes []comet.VectorNode) (aliased bool) {
+	before, ok := trainedStateDigest(idx)
+	scribbleOver(nodes)
+	after, _ := trainedStateDigest(idx)
+	return ok && before != after
 }
